@@ -844,6 +844,49 @@ func (c *specCtx) callExpr(x *ast.CallExpr) (tv, error) {
 			return tv{a.Term, types.NewPointer(T)}, nil
 		}
 		return tv{Term{fmt.Sprintf("(ipay_I %s)", a.S), SInt}, types.NewPointer(T)}, nil
+	case "gocall":
+		// gocall("path/filepath.Rel", 0, a, b): result number 0 of the library function
+		// applied to a, b - the same uninterpreted application the encoder uses for
+		// a call of that (pure-package) function in the code
+		lit, ok := args[0].(*ast.BasicLit)
+		idxLit, ok2 := args[1].(*ast.BasicLit)
+		if !ok || !ok2 {
+			return tv{}, fmt.Errorf("gocall needs a function name and a result index")
+		}
+		name, _ := strconv.Unquote(lit.Value)
+		ri, _ := strconv.Atoi(idxLit.Value)
+		dot := strings.LastIndex(name, ".")
+		if dot < 0 {
+			return tv{}, fmt.Errorf("gocall: bad function name %q", name)
+		}
+		var sig *types.Signature
+		for _, p := range fr.enc.prog.AllPackages() {
+			if p.Pkg.Path() == name[:dot] {
+				if fo, ok := p.Pkg.Scope().Lookup(name[dot+1:]).(*types.Func); ok {
+					sig = fo.Type().(*types.Signature)
+				}
+			}
+		}
+		if sig == nil || !fr.enc.db.PurePkgs[name[:dot]] || ri >= sig.Results().Len() {
+			return tv{}, fmt.Errorf("gocall: %q is not a function of a pure package (or has no such result)", name)
+		}
+		var sorts, as []string
+		for _, a := range args[2:] {
+			t, err := c.tr(a)
+			if err != nil {
+				return tv{}, err
+			}
+			sorts = append(sorts, t.Sort.String())
+			as = append(as, t.S)
+		}
+		rt := sig.Results().At(ri).Type()
+		fn := fmt.Sprintf("pure:%s#%d", name, ri)
+		vc.declFun(fn, sorts, sortOf(rt).String())
+		term := sym(fn)
+		if len(as) > 0 {
+			term = "(" + sym(fn) + " " + strings.Join(as, " ") + ")"
+		}
+		return tv{Term{term, sortOf(rt)}, rt}, nil
 	case "typed":
 		// typed(x, "map[string][]string"): the value x (a ghost, say) read with
 		// the Go type written in the second argument (evaluated in the scope of
